@@ -141,7 +141,19 @@ def _call(c):
     if k == "i2b":
         return [int(x) for x in cpl.int_to_bits(c["num"], c["d"])]
     if k == "br":
-        n = np.array(c["n"])
+        variant = (sum(c["n"]) + len(c["n"]) + c["rule"]) % 5
+        if variant == 1:
+            n = np.array(c["n"], dtype=np.uint8)
+        elif variant == 2:
+            n = np.array(c["n"], dtype=np.int8)
+        elif variant == 3:                      # a non-contiguous view
+            buf = np.zeros(2 * len(c["n"]), dtype=np.int64)
+            buf[::2] = c["n"]
+            n = buf[::2]
+        elif variant == 4:
+            n = np.array(c["n"], dtype=bool)
+        else:
+            n = np.array(c["n"])
         rule, form = c["rule"], c["form"]
         w = len(c["n"])
         if form == "func_nks":
